@@ -1,5 +1,132 @@
 import ZoektModel.Basic.Proto
+import ZoektModel.C18.Spec
+import ZoektModel.C05.Codec
 namespace ZoektModel.C18
-/-- stub: no model driver for C18 yet -/
-def main : IO Unit := ZoektModel.Proto.runLines (fun _ => ZoektModel.Proto.badCase "no model driver for C18")
+open ZoektModel ZoektModel.Proto ZoektModel.Query
+
+def pRShard : P RShard := fun ts => do
+  let (f, r) ← pBool ts
+  let (s, r) ← pShard r
+  pure ({ shard := s, failed := f }, r)
+
+def pShards : P (List RShard) := fun ts => do
+  let (l, r) ← pCounted pRShard ts
+  pure ((l.zipIdx.map fun p => { p.1 with pos := p.2 }), r)
+
+def showPairs (l : List (Nat × Nat)) : String := showList (fun p => s!"{p.1}:{p.2}") l
+
+def parsePairs (s : String) : Option (List (Nat × Nat)) :=
+  if s == "-" then some [] else
+  (s.splitOn ",").mapM fun e =>
+    match e.splitOn ":" with
+    | [a, b] => do pure (← a.toNat?, ← b.toNat?)
+    | _ => none
+
+def showNames (l : List Str) : String := showList hx l
+
+def parseNames (s : String) : Option (List Str) :=
+  if s == "-" then some [] else (s.splitOn ",").mapM hexToBytes?
+
+/-- positions of the selected shards -/
+def positions (_shards sel : List RShard) : List Nat := sel.map (·.pos)
+
+/-- entries: `name:st,st,…;name:…` per shard, shards separated by `|`, `-` = none -/
+def parseEntries (s : String) : Option (List (Str × Stats)) :=
+  if s == "-" then some [] else
+  (s.splitOn ";").mapM fun e =>
+    match e.splitOn ":" with
+    | [n, st] => do pure (← hexToBytes? n, ← natList? st)
+    | _ => none
+
+def showEntries (l : List (Str × Stats)) : String :=
+  if l.isEmpty then "-" else ";".intercalate (l.map fun e => s!"{hx e.1}:{showNatList e.2}")
+
+def sortEntries (l : List (Str × Stats)) : List (Str × Stats) :=
+  l.foldr (fun x acc =>
+    let rec ins : List (Str × Stats) → List (Str × Stats)
+      | [] => [x]
+      | y :: r => if strLt y.1 x.1 then y :: ins r else x :: y :: r
+    ins acc) []
+
+/-- the model of what the searcher stack does for a search: replace type:repo, select + rewrite, then each selected
+    shard simplifies, expands and evaluates -/
+def pipelineSearch (shards : List RShard) (q : Q) : List (Nat × Nat) :=
+  let ctx := corpus shards
+  let q1 := typeRepoEval shards q
+  let sel := selectRepoSet shards q1
+  let pos := positions shards sel.1
+  pos.flatMap fun i =>
+    match shards[i]? with
+    | none => []
+    | some rs => (selected ctx rs.shard (expand (shardSimplify rs.shard sel.2))).map fun j => (i, j)
+
+def failKeySel (shards : List RShard) (q : Q) : String :=
+  -- the known class: the first filter child is a single-entry BranchesRepos for the branch "HEAD", and some listed
+  -- repository does not have HEAD as its first and only so-named branch (C18_union_partial's hypothesis fails)
+  let cs := match q with | .and cs => cs | q => [q]
+  match firstFilter cs with
+  | some (_, .branchesRepos [br], _) =>
+    if br.1 == HEAD && shards.any (fun rs => rs.listed.any fun r => !headFirstB r) then "branchesrepos-head-rewrite"
+    else if br.1.isEmpty then "branchesrepos-empty-branch-rewrite" else "select-differs"
+  | _ => if hasEmptyBranch q then "branch-empty-pattern" else "select-differs"
+
+def handle (line : String) : String :=
+  let (inp, impl) := splitCase line
+  match fields inp with
+  | "sel" :: r =>
+    match pShards r with
+    | none => badCase "shards"
+    | some (shards, r) =>
+      match pTree r with
+      | some (q, []) =>
+        let m := selectRepoSet shards q
+        let model := s!"{showNatList (positions shards m.1)} {showQ m.2}"
+        match fields impl with
+        | selS :: t =>
+          match natList? selS, pTree t with
+          | some sel, some (q', []) =>
+            if checkSelect shards q sel q' then answer model else specFail model (failKeySel shards q)
+          | _, _ => badCase "impl"
+        | _ => badCase "impl"
+      | _ => badCase "query"
+  | "search" :: r =>
+    match pShards r with
+    | none => badCase "shards"
+    | some (shards, r) =>
+      match pTree r with
+      | some (q, []) =>
+        let model := showPairs (pipelineSearch shards q)
+        match parsePairs impl with
+        | none => badCase "impl files"
+        | some files =>
+          if checkSearch shards q files then answer model
+          else specFail model (if hasEmptyBranch q then "branch-empty-pattern"
+            else if files == pipelineSearch shards q then failKeySel shards (typeRepoEval shards q) else "search-differs")
+      | _ => badCase "query"
+  | "list" :: r =>
+    match pShards r with
+    | none => badCase "shards"
+    | some (shards, r) =>
+      match pTree r with
+      | some (q, []) =>
+        let q1 := typeRepoEval shards q
+        let model := showNames (sortStrs (shardedListNames shards q1))
+        match parseNames impl with
+        | none => badCase "impl names"
+        | some names =>
+          if checkList shards q names then answer model
+          else specFail model (if hasEmptyBranch q then "branch-empty-pattern"
+            else if names == sortStrs (shardedListNames shards q1) then failKeySel shards (simplify q1) else "list-differs")
+      | _ => badCase "query"
+  | "agg" :: shardsS =>
+    match shardsS.mapM parseEntries with
+    | none => badCase "entries"
+    | some perShard =>
+      let model := showEntries (sortEntries (aggregate perShard))
+      match parseEntries impl with
+      | none => badCase "impl entries"
+      | some out => if checkAggregate perShard out then answer model else specFail model "aggregate"
+  | _ => badCase "op"
+
+def main : IO Unit := runLines handle
 end ZoektModel.C18
